@@ -59,20 +59,14 @@ def colClamp (g : Grid) : M Grid := do
   pure (if g.pos.col > b then { g with pos := { g.pos with col := b } } else g)
 
 def setSize (g : Grid) (size : Size) : M Grid := do
-  let g := if size.cols != g.size.cols then { g with rows := g.rows.map (fun r => r.wrap false) } else g
+  let rows0 := if size.cols != g.size.cols then g.rows.map (fun r => r.wrap false) else g.rows
   let oldB ← subM 406 g.size.rows 1
-  let g ← if g.scrollBottom == oldB then do
-      let nb ← subM 407 size.rows 1
-      pure { g with scrollBottom := nb }
-    else pure g
-  let g := { g with size := size }
-  let g := { g with rows := g.rows.map (fun (r : Row) => r.resize size.cols Cell.new) }
-  let g := { g with rows := resizeList g.rows size.rows g.newRow }
-  let g ← if g.scrollBottom ≥ size.rows then do
-      let nb ← subM 408 size.rows 1
-      pure { g with scrollBottom := nb }
-    else pure g
-  let g := if g.scrollBottom < g.scrollTop then { g with scrollTop := 0 } else g
+  let sb1 ← if g.scrollBottom == oldB then subM 407 size.rows 1 else pure g.scrollBottom
+  let rows1 := rows0.map (fun (r : Row) => r.resize size.cols Cell.new)
+  let rows2 := resizeList rows1 size.rows (Row.new size.cols)
+  let sb2 ← if sb1 ≥ size.rows then subM 408 size.rows 1 else pure sb1
+  let top := if sb2 < g.scrollTop then 0 else g.scrollTop
+  let g := { g with size := size, rows := rows2, scrollBottom := sb2, scrollTop := top }
   let (g, _) := g.rowClampTop false
   let (g, _) ← g.rowClampBottom false
   let g ← g.colClamp
